@@ -29,6 +29,8 @@ OBLIGATIONS = [
      "statement": "a writable event with a first answer wrote n>0 on a non-empty queue strictly decreases the pending byte count; wire grows by exactly that amount"},
     {"id": "C01_T3_drain", "theorem": "Iora.C01.T3_drains", "kind": "proved",
      "statement": "if the environment takes every buffer whole, one writable event empties the queue"},
+    {"id": "C01_T3_fair", "theorem": "Iora.C01.T3_fair_drain", "kind": "proved",
+     "statement": "if every writable event's first write takes >= 1 byte, then after `pending` writable events the queue is empty or the session was closed by a reported error — for all cut positions / EAGAINs / errors after each first answer"},
     {"id": "C01_T4", "theorem": "Iora.C01.T4_read_loop", "kind": "proved",
      "statement": "the read loop delivers exactly the data answers before the first non-data answer, in order, each once, stops there, and closes iff that answer is eof/error"},
     {"id": "C01_T5", "theorem": "Iora.C01.T5_per_thread_fifo", "kind": "proved",
@@ -360,7 +362,8 @@ def monitor(c, r):
 
 
 def replay_obj(c, r, extra=None):
-    o = {"case": c, "op": case_line(c), "fin": r.get("fin"), "acc": r.get("acc"), "segs": (r.get("segs") or [])[:80]}
+    o = {"case": c, "op": case_line(c), "fin": r.get("fin"), "acc": r.get("acc"),
+         "segs_first": (r.get("segs") or [])[:40], "segs_last": (r.get("segs") or [])[-60:], "n_segs": len(r.get("segs") or [])}
     if extra:
         o.update(extra)
     return o
@@ -522,7 +525,7 @@ def run(ctx: Ctx):
     ctx.extra["input_distribution"] = dist
     ctx.extra["repo_tree_sha"] = ctx.repo_tree_sha(ANCHOR_FILES)
     ctx.extra["not_proved"] = [
-        "liveness beyond one event: T3 gives the re-arm invariant and per-event progress; 'a fair environment eventually drains the queue' is not stated as a temporal theorem",
+        "liveness is stated as T3_rearm (a writable event is armed whenever the queue is non-empty) + T3_fair_drain (enough productive writable events empty the queue); that epoll delivers the armed event is an assumption about the kernel, not a theorem",
         "doConnect / onListener / timers / GC closes are C02 (here: 'session closed' is an output); TLS configuration is C07",
     ]
     ctx.assumptions += [
